@@ -1928,6 +1928,10 @@ class Store:
                     'the topology: %s', str(source), str(mismatch_schema))
 
             for port, subschema in schema.items():
+                if port == '_output':
+                    # A flag of the port (consumed by schema_topology),
+                    # not a sub-port.
+                    continue
                 path = topology.get(port, (port,))
 
                 if port == '*':
